@@ -93,6 +93,91 @@ def env_val(j):
     return ser.json_to_val(j)
 
 
+# ---------------------------------------- leaves known through a base class (round 4)
+# C05_Fresh!DispatchPath "mro": node classes whose own mapper_method no stock mapper
+# defines; the mappers serve them with the handler of a base class found through the
+# node's MRO.  The Expr.tla record is [t |-> "Var", name, cls]; harness/ser.py (shared)
+# knows the stock classes only, so the two directions are wrapped here.
+_LEAVES = None
+
+
+def leaf_classes():
+    """cls tag -> node class (one class object per process: node equality compares classes)."""
+    global _LEAVES
+    if _LEAVES is None:
+        import pymbolic.primitives as p
+        from pymbolic.geometric_algebra.primitives import MultiVectorVariable
+
+        class C05SubVariable(p.Variable):
+            """a user-defined leaf: no mapper has a map_c05_sub_variable"""
+            mapper_method = "map_c05_sub_variable"
+
+        _LEAVES = {"sub": C05SubVariable, "mv": MultiVectorVariable}
+    return _LEAVES
+
+
+def _has_cls(j):
+    if isinstance(j, dict):
+        return "cls" in j and j.get("t") == "Var" or any(_has_cls(v) for v in j.values())
+    if isinstance(j, list):
+        return any(_has_cls(v) for v in j)
+    return False
+
+
+def tree_from_json(j):
+    """ser.from_json, also for trees with [Var, name, cls] leaves."""
+    if not _has_cls(j):
+        return ser.from_json(j)
+    if isinstance(j, dict) and j.get("t") == "Var":
+        return leaf_classes()[j["cls"]](j["name"]) if "cls" in j else ser.from_json(j)
+    return _rebuild(j, tree_from_json)
+
+
+def _swap(e, marks):
+    """Copy of e in which every leaf of a leaf_classes() class is a stock Variable with a
+    marker name (marks: marker name -> the leaf's record)."""
+    import dataclasses
+
+    import pymbolic.primitives as p
+    for tag, cls in leaf_classes().items():
+        if type(e) is cls:
+            name = f"\x00{len(marks)}"
+            marks[name] = {"t": "Var", "name": e.name, "cls": tag}
+            return p.Variable(name)
+    if isinstance(e, p.Expression):
+        return type(e)(*[_swap(getattr(e, f.name), marks) for f in dataclasses.fields(e)])
+    if isinstance(e, (tuple, list)):
+        return type(e)(_swap(c, marks) for c in e)
+    if isinstance(e, dict) or type(e).__name__ == "immutabledict":
+        return type(e)({k: _swap(v, marks) for k, v in e.items()})
+    return e
+
+
+def _unswap(j, marks):
+    if isinstance(j, dict):
+        if j.get("t") == "Var" and j.get("name") in marks:
+            return dict(marks[j["name"]])
+        return {k: _unswap(v, marks) for k, v in j.items()}
+    if isinstance(j, list):
+        return [_unswap(v, marks) for v in j]
+    return j
+
+
+def tree_to_json(obj):
+    """ser.to_json, also for trees with leaves of the leaf_classes()."""
+    try:
+        return ser.to_json(obj)
+    except ser.Unserialisable:
+        pass
+    marks = {}
+    with warnings.catch_warnings():
+        warnings.simplefilter("ignore")
+        twin = _swap(obj, marks)
+    if not marks:
+        raise ser.Unserialisable(repr(obj)[:200])
+    return _unswap(ser.to_json(twin), marks)
+
+
 # ------------------------------------------------------------------ trace recorder
 class Recorder:
     """Interns trees (by their type-exact JSON) and argument tuples, collects events."""
@@ -107,7 +192,7 @@ class Recorder:
 
     def tree(self, obj):
         try:
-            j = ser.to_json(obj)
+            j = tree_to_json(obj)
         except ser.Unserialisable:
             self.unser = True
             j = {"t": "Var", "name": "<unserialisable>"}
@@ -236,7 +321,7 @@ def _classes():
 
     class _RenameLeaf:
         def map_variable(self, expr, *args, **kwargs):
-            return p.Variable(expr.name + "_r" + suffix(args, kwargs))
+            return type(expr)(expr.name + "_r" + suffix(args, kwargs))
 
     class Renamer(_RenameLeaf, IdentityMapper):
         pass
@@ -249,7 +334,7 @@ def _classes():
 
     class _CollectLeaf:
         def map_variable(self, expr, *args, **kwargs):
-            return {p.Variable(expr.name + "_r" + suffix(args, kwargs))}
+            return {type(expr)(expr.name + "_r" + suffix(args, kwargs))}
 
     class VarCollector(_CollectLeaf, Collector):
         pass
@@ -283,7 +368,7 @@ def _classes():
                 return pcls([leaf for v in values for leaf in v.payload])
 
             def map_variable(self, expr, *args, **kwargs):
-                return pcls((p.Variable(expr.name + "_r" + suffix(args, kwargs)),))
+                return pcls((type(expr)(expr.name + "_r" + suffix(args, kwargs)),))
 
             def map_constant(self, expr, *args, **kwargs):
                 return pcls((expr,))
@@ -394,7 +479,7 @@ class Builder:
 
     def build(self, j):
         if not self.share:
-            return ser.from_json(j)
+            return tree_from_json(j)
         return self._b(j)
 
     def _b(self, j):
@@ -404,7 +489,7 @@ class Builder:
         if s in self.memo:
             return self.memo[s]
         if j["t"] in ("Var", "Const", "None"):
-            obj = ser.from_json(j)
+            obj = tree_from_json(j)
         else:
             obj = _rebuild(j, self._b)
         self.memo[s] = obj
